@@ -269,6 +269,7 @@ class Fn:
         self.uses_fuel = False
         self.pure_calls = set()    # function-pointer parameters / external functions assumed pure: a call is an application of a function-valued parameter
         self.pure_params = {}      # name -> Lean type text of that parameter
+        self.loop_mode = None      # while one iteration of a recursive loop is translated: {'idx', 'n': {fname: count}, 'rets': [(name, type)]}
         self.trace = []
         self.lets, self.n = [], 0
         self.uses_mem = False
@@ -283,6 +284,10 @@ class Fn:
             return 'Mem'
         if key in ('$ub', '$exh', '$done', '$exit', '$path'):
             return 'Bool'
+        if key == '$trace':
+            return 'List ExtCall'
+        if key == '$iter':
+            return 'Nat'
         if key == '$ret':
             t = self.ret_types[-1] if self.ret_types else None
             return None if t is None else f'BitVec {t.w}'
@@ -827,6 +832,8 @@ class Fn:
         the value it returns is an input of the generated definition (`<f>_ret_<k>`), the arguments it is given and whether
         the call is executed are results (`<f>_arg_<k>_<i>`, `<f>_called_<k>`); <k> numbers the call sites in execution order
         of the unrolled code"""
+        if self.loop_mode is not None:
+            return self.extern_call_in_loop(fname, n, args, env)
         self.nsite[fname] = self.nsite.get(fname, 0) + 1
         k = self.nsite[fname]
         widths = []
@@ -845,6 +852,52 @@ class Fn:
         rt = self.tu.vtype(n)
         self.extra_params.append((f'{fname}_ret_{k}', rt.w))
         return f'{fname}_ret_{k}'
+
+    def extern_call_in_loop(self, fname, n, args, env):
+        """a call of the environment inside a loop that is a recursive definition: the value returned is a function of the iteration
+        number (`<f>_ret_L<loop>_<k> : Nat → BitVec w`, an input), the executed calls are appended, in order, to the list `loop_trace`
+        the definition returns"""
+        lm = self.loop_mode
+        lm['n'][fname] = lm['n'].get(fname, 0) + 1
+        k = lm['n'][fname]
+        items = []
+        for a in args:
+            t = self.tu.vtype(a)
+            v = self.bind(f'{fname}_arg', self.ev(a, env))
+            items.append(f'(BitVec.signExtend 64 {v})' if t.s and t.w < 64 else f'(BitVec.setWidth 64 {v})')
+        rq = n.get('type', {}).get('qualType')
+        if rq == 'void':
+            rv, ret = '0#64', '()'
+        else:
+            rt = self.tu.vtype(n)
+            pn = f'{fname}_ret_L{lm["idx"]}_{k}'
+            if (pn, f'Nat → BitVec {rt.w}') not in lm['rets']:
+                lm['rets'].append((pn, f'Nat → BitVec {rt.w}'))
+            ret = self.bind(f'{fname}_ret', f'({pn} {env["$iter"]})')
+            rv = f'(BitVec.signExtend 64 {ret})' if rt.s and rt.w < 64 else f'(BitVec.setWidth 64 {ret})'
+        dd = self.dead(env)
+        path = env.get('$path', 'true')
+        live = path if dd == 'false' else (f'(!{dd})' if path == 'true' else f'({path} && !{dd})')
+        ev_ = f'({env["$trace"]} ++ [⟨"{fname}", [{", ".join(items)}], {rv}⟩])'
+        env['$trace'] = self.bind('trace', ev_ if live == 'true' else f'(if {live} then {ev_} else {env["$trace"]})')
+        return ret
+
+    def body_calls_extern(self, n, seen=None):
+        seen = seen if seen is not None else set()
+        if isinstance(n, dict):
+            if n.get('kind') == 'CallExpr':
+                c = strip(n['inner'][0])
+                nm = c.get('referencedDecl', {}).get('name') if c.get('kind') == 'DeclRefExpr' else None
+                if nm in self.externs:
+                    return True
+                if nm in self.tu.fns and nm not in seen:
+                    seen.add(nm)
+                    if self.body_calls_extern(self.tu.fns[nm], seen):
+                        return True
+            return any(self.body_calls_extern(v, seen) for v in n.values())
+        if isinstance(n, list):
+            return any(self.body_calls_extern(v, seen) for v in n)
+        return False
 
     def inline_call(self, fname, fdecl, args, env):
         """a call of a function defined in the unit: its body is translated in place (same let chain, same flags)"""
@@ -1026,6 +1079,14 @@ class Fn:
             raise Unsupported('do-while as a recursive loop')
         fname = self.decl['name']
         sites0 = (dict(self.nsite), len(self.extra_params), len(self.extra_outs), len(self.trace))
+        with_env_calls = self.body_calls_extern([cond, body, inc])
+        if with_env_calls:
+            if self.loop_mode is not None:
+                raise Unsupported('calls of the environment in nested recursive loops')
+            if self.trace:
+                raise Unsupported('calls of the environment both before and inside a recursive loop')
+            env.setdefault('$trace', '[]')
+            env['$iter'] = '0'
 
         def one_iteration(e):
             if cond and cond.get('kind'):
@@ -1036,14 +1097,21 @@ class Fn:
             if inc and inc.get('kind'):
                 self.ev(inc, e)
             self.in_loop -= 1
+            if with_env_calls:
+                e['$iter'] = f'({e["$iter"]} + 1)'
 
         # pass 1: which variables does one iteration assign?
         keys = [k_ for k_ in env if env[k_] not in (UNINIT, None) or k_ == '$ret']
         snap = (list(self.lets), self.n, dict(self.ktype), list(self.aux_defs), self.nloops)
         e1 = dict(env); e1['$exit'] = 'false'; e1['$done'] = 'false' if env['$done'] == 'false' else env['$done']
-        one_iteration(e1)
+        if with_env_calls:
+            self.loop_mode = {'idx': self.nloops + 1, 'n': {}, 'rets': []}
+        try:
+            one_iteration(e1)
+        finally:
+            self.loop_mode = None
         if (dict(self.nsite), len(self.extra_params), len(self.extra_outs), len(self.trace)) != sites0:
-            raise Unsupported('call of the environment or va_arg inside a loop')
+            raise Unsupported('va_arg inside a loop')
         state = [k_ for k_ in keys if k_ not in ('$exit', '$path') and e1.get(k_) != env.get(k_)]
         self.lets, self.n, self.ktype, self.aux_defs, self.nloops = snap
         # pass 2: the iteration over parameter names
@@ -1060,9 +1128,15 @@ class Fn:
         e2['$exit'] = 'false'; e2['$done'] = 'false'; e2['$path'] = 'true'
         outer_lets, outer_n = self.lets, self.n
         self.lets, self.n = [], 0            # names inside the loop definition are local to it
-        one_iteration(e2)
+        lm = {'idx': self.nloops, 'n': {}, 'rets': []} if with_env_calls else None
+        self.loop_mode = lm
+        try:
+            one_iteration(e2)
+        finally:
+            self.loop_mode = None
         body_lets = self.lets
         self.lets, self.n = outer_lets, outer_n
+        ret_fns = lm['rets'] if lm else []
         text = ' '.join(e for _, e in body_lets) + ' ' + ' '.join(str(e2[k_]) for k_ in state) + f' {e2["$done"]} {e2["$exit"]}'
         toks = set(re.findall(r"[A-Za-z_][A-Za-z0-9_']*", text))
         ro = [k_ for k_ in keys if k_ not in state and k_ not in ('$exit', '$path', '$done') and pname[k_] in toks]
@@ -1077,7 +1151,7 @@ class Fn:
         flds = [(self.san(k_), types[k_]) for k_ in state]
         out = [f'/-- state after the loop {self.nloops} of `{fname}` -/', f'structure {lname}.St where']
         out += [f'  {f} : {t}' for f, t in flds] + ['  exh : Bool', '']
-        ropar = ' '.join(f'({pname[k_]} : {types[k_]})' for k_ in ro)
+        ropar = ' '.join([f'({n_} : {t_})' for n_, t_ in ret_fns] + [f'({pname[k_]} : {types[k_]})' for k_ in ro])
         stpar = ' '.join(f'({pname[k_]} : {types[k_]})' for k_ in state)
         out += [f'/-- loop {self.nloops} of `{fname}`: one unfolding = condition, body, increment; `fuel` bounds the number of iterations (`exh` when it runs out) -/',
                 f'def {lname} {ropar} (fuel : Nat) {stpar} : {lname}.St :=', '  match fuel with',
@@ -1087,7 +1161,7 @@ class Fn:
             out.append(f'    let {n_} := {e}')
         stop = self.dead(e2)
         res = '{ ' + ', '.join([f'{self.san(k_)} := {e2[k_]}' for k_ in state] + ['exh := false']) + ' }'
-        rec = f'{lname} ' + ' '.join(pname[k_] for k_ in ro) + ' fuel ' + ' '.join(str(e2[k_]) for k_ in state)
+        rec = f'{lname} ' + ' '.join([n_ for n_, _ in ret_fns] + [pname[k_] for k_ in ro]) + ' fuel ' + ' '.join(str(e2[k_]) for k_ in state)
         out.append(f'    if {stop} then {res} else {rec}')
         out.append('')
         # the same loop inlined into another function of the unit (list_remove inlines list_contains) reuses the first definition
@@ -1102,7 +1176,10 @@ class Fn:
         # the call
         self.uses_fuel = True
         init_ret = env['$ret'] if env['$ret'] is not None else (lit(0, self.ret_types[-1].w) if self.ret_types and self.ret_types[-1] is not None else None)
-        args = []
+        args = [n_ for n_, _ in ret_fns]
+        for n_, t_ in ret_fns:
+            if (n_, t_) not in self.extra_params:
+                self.extra_params.append((n_, t_))
         for k_ in ro:
             args.append(str(env[k_]))
         sargs = []
@@ -1117,6 +1194,7 @@ class Fn:
             env[k_] = v if k_ not in ('$mem',) else self.bind('mem', v)
         if '$mem' in state:
             self.uses_mem = True
+        env.pop('$iter', None)
         self.flag(env, '$exh', f'{r}.exh')
 
     def loop_unrolled(self, n, env):
@@ -1411,6 +1489,8 @@ class Fn:
         for key, fname, w in outs:
             fields.append((fname, f'BitVec {w}', env[key]))
         fields += self.extra_outs
+        if env.get('$trace') is not None:
+            fields.append(('loop_trace', 'List ExtCall', env['$trace']))
         params += self.extra_params
         if self.uses_mem:
             fields.append(('mem', 'Mem', env['$mem']))
@@ -1423,7 +1503,7 @@ class Fn:
         out += [f'  {f} : {t}' for f, t, _ in fields]
         out.append('')
         sigtxt = ('(fuel : Nat) ' if self.uses_fuel else '') + ''.join(f'({n_} : {t_}) ' for n_, t_ in sorted(self.pure_params.items())) \
-            + ' '.join(f'({n_} : BitVec {w})' for n_, w in params) + (' (mem : Mem)' if self.uses_mem else '')
+            + ' '.join((f'({n_} : {w})' if isinstance(w, str) else f'({n_} : BitVec {w})') for n_, w in params) + (' (mem : Mem)' if self.uses_mem else '')
         out = self.aux_defs + out
         out += [f'/-- generated from `{name}` (sequential meaning; loops ' + ('are recursive definitions with a fuel argument' if self.uses_fuel else f'unrolled {self.fuel}×') + ') -/', f'def {name} {sigtxt} : {name}.Out :=']
         for n_, e in self.lets:
@@ -1432,7 +1512,7 @@ class Fn:
         if self.trace:
             out.append('')
             out.append(f'/-- the external calls `{name}` executes, in order, with their arguments and the value each returned (zero- or sign-extended to 64 bits; 0 for a `void` call) -/')
-            rparams = ' '.join(f'({n_} : BitVec {w})' for n_, w in self.extra_params)
+            rparams = ' '.join((f'({n_} : {w})' if isinstance(w, str) else f'({n_} : BitVec {w})') for n_, w in self.extra_params)
             out.append(f'def {name}.trace (o : {name}.Out) {rparams} : List ExtCall :=')
             parts = []
             for fn_, k_, widths, ret_ in self.trace:
